@@ -376,6 +376,11 @@ fn do_op(op: &Op) -> Obs {
                 Ok(pl) => pl,
                 Err(e) => return Obs::err(format!("PLERR {}", err_json_tree(&e, &tree))),
             };
+            // what `prqlc fmt` / `prqlc collect` print for the assembled module tree
+            let fmt = match prqlc::pl_to_prql(&pl) {
+                Ok(s) => s,
+                Err(e) => format!("FMTERR {}", err_json_tree(&e, &tree)),
+            };
             let rq = match prqlc::pl_to_rq_tree(
                 pl,
                 main_path,
@@ -384,12 +389,12 @@ fn do_op(op: &Op) -> Obs {
                 Ok(rq) => rq,
                 Err(e) => {
                     return Obs::err(format!(
-                        "RQERR {}",
+                        "FMT {fmt}\nRQERR {}",
                         err_json_tree(&e.composed(&tree), &tree)
                     ))
                 }
             };
-            let text = format!("RQ {}", rq_text_tree(&rq, &tree));
+            let text = format!("FMT {fmt}\nRQ {}", rq_text_tree(&rq, &tree));
             match prqlc::rq_to_sql(rq, &o) {
                 Ok(sql) => Obs::ok(format!("{text}\nSQL {sql}")),
                 Err(e) => Obs::err(format!(
